@@ -51,6 +51,45 @@ pub fn encode_real(data: &[u8], w: u32, h: u32, color: ColorType, pred: bool, ic
     }
 }
 
+/// the same encode after a history of setter calls: every payload is first set to something else
+/// (non-empty junk, or the final value of another slot), in an order chosen by `hist`, then to its
+/// final value (possibly empty = withdrawn)
+pub fn encode_history(data: &[u8], w: u32, h: u32, color: ColorType, pred: bool, icc: &[u8], exif: &[u8], xmp: &[u8], hist: u64) -> Result<Vec<u8>, String> {
+    let mut sink = RecSink { bytes: vec![], writes: vec![] };
+    let r = catch(|| {
+        let mut e = WebPEncoder::new(&mut sink);
+        let junk = |k: u64| -> Vec<u8> { (0..(1 + (hist >> k) % 5)).map(|i| (i as u8).wrapping_mul(37).wrapping_add(k as u8)).collect() };
+        for step in 0..3u64 {
+            match (hist + step) % 3 {
+                0 => e.set_icc_profile(junk(3)),
+                1 => e.set_exif_metadata(junk(5)),
+                _ => e.set_xmp_metadata(junk(7)),
+            }
+        }
+        let mut p = EncoderParams::default();
+        p.use_predictor_transform = !pred;
+        e.set_params(p);
+        let mut p = EncoderParams::default();
+        p.use_predictor_transform = pred;
+        e.set_params(p);
+        if hist % 2 == 0 {
+            e.set_xmp_metadata(xmp.to_vec());
+            e.set_exif_metadata(exif.to_vec());
+            e.set_icc_profile(icc.to_vec());
+        } else {
+            e.set_icc_profile(icc.to_vec());
+            e.set_exif_metadata(exif.to_vec());
+            e.set_xmp_metadata(xmp.to_vec());
+        }
+        e.encode(data, w, h, color).map_err(|e| format!("{e:?}"))
+    });
+    match r {
+        Ok(Ok(())) => Ok(sink.bytes),
+        Ok(Err(e)) => Err(e),
+        Err(m) => Err(format!("PANIC {m}")),
+    }
+}
+
 fn one(drv: &mut Drv, rep: &mut Report, w: u32, h: u32, ci: u64, pred: bool, data: &[u8], icc: &[u8], exif: &[u8], xmp: &[u8]) {
     let (color, _bpp, alpha, cname) = color_of(ci);
     let frame = match image_webp::verif_hooks::enc_frame(data, w, h, color, pred) {
@@ -106,6 +145,15 @@ fn one(drv: &mut Drv, rep: &mut Report, w: u32, h: u32, ci: u64, pred: bool, dat
     if let Ok((b2, _)) = encode_real(data, w, h, color, pred, icc, exif, xmp) {
         if b2 != bytes {
             fail("C09: output is a deterministic function of the arguments", "second encode differs".into(), "identical".into(), "violation");
+        }
+    }
+    // ... of the arguments in force at encode time: payloads that were set earlier and then replaced
+    // or withdrawn (set to empty) leave no trace
+    for hist in [(bytes.len() as u64) % 7, 3 + (w as u64 + h as u64) % 11] {
+        match encode_history(data, w, h, color, pred, icc, exif, xmp, hist) {
+            Ok(b3) if b3 == bytes => {}
+            Ok(b3) => fail("C09: the bytes written are a function of the arguments in force at encode time (metadata set earlier and then replaced or withdrawn leaves no trace)", format!("{} bytes, VP8X flags {:?}", b3.len(), if b3.len() > 20 && &b3[12..16] == b"VP8X" { Some(b3[20]) } else { None }), format!("{} bytes identical to the direct encode", bytes.len()), "violation"),
+            Err(e) => fail("C09: encode after a history of setter calls succeeds", e, "Ok".into(), "violation"),
         }
     }
     // crate decoder
